@@ -2,7 +2,7 @@
    (finding #6 and relatives), and non-trivial instances that meet the hypotheses of the agreement theorems. *)
 From Coq Require Import PrimFloat ZArith List Bool Lia.
 Import ListNotations.
-Require Import PyBase Solver SolverF FSem FSemFacts FSolve FSolveFacts FSolveSim FSolveRun FPassFacts FSolveAll FPassSolve FortranF.
+Require Import PyBase Solver SolverF FSem FSemFacts FBenignFacts FSolve FSolveFacts FSolveSim FSolveRun FPassFacts FSolveAll FSolveAllG FPassSolve FortranF.
 Open Scope Z_scope.
 
 Definition no_or : oracles := mkOr [] [] [].
@@ -131,7 +131,7 @@ Section ZInstance.
     - reflexivity.
     - reflexivity.
     - reflexivity.
-    - constructor; [|constructor]. split; [cbn; lia|]. split; [reflexivity|].
+    - constructor; [|constructor]. split; [cbn; lia|]. split; [cbn; tauto|].
       intros j k H. cbn in H. destruct H as [H|[H|[H|[]]]]; inversion H; subst; cbn; split; lia.
     - reflexivity.
     - reflexivity.
@@ -168,7 +168,7 @@ Section ZInstance.
     - reflexivity.
     - reflexivity.
     - reflexivity.
-    - constructor; [|constructor]. split; [cbn; lia|]. split; [reflexivity|].
+    - constructor; [|constructor]. split; [cbn; lia|]. split; [cbn; tauto|].
       intros j k H. cbn in H. destruct H as [H|[H|[H|[]]]]; inversion H; subst; cbn; split; lia.
     - cbn; lia.
     - cbn; lia.
@@ -201,11 +201,132 @@ Section ZInstance.
     - lia.
     - reflexivity.
     - reflexivity.
-    - constructor; [|constructor]. split; [cbn; lia|]. split; [reflexivity|].
+    - constructor; [|constructor]. split; [cbn; lia|]. split; [cbn; tauto|].
       intros j k H. cbn in H. destruct H as [H|[H|[H|[]]]]; inversion H; subst; cbn; split; lia.
     - reflexivity.
     - lia.
     - lia.
     - vm_compute. intuition auto.
   Qed.
+  (* a program with benign literals meets the hypotheses too: Y = 2 * Y[-1] + 0.5 * X - X / 4 (over the integers 0.5 is
+     played by the exactly representable "decimal" 3) *)
+  Definition zprog_lit : list (eqn Z) :=
+    [(0%nat, EBin OSub (EBin OAdd (EBin OMul (EInt 2) (EVar 0%nat (-1))) (EBin OMul (EDec 3 3) (EVar 1%nat 0)))
+                        (EBin ODiv (EVar 1%nat 0) (EInt 4)))].
+  Example benign_instance :
+    prog_scoped Z 3 1 0 zprog_lit /\
+    literal_free Z (snd (hd (0%nat, EInt 0) zprog_lit)) = false /\
+    py_pass Z Z.add Z.sub Z.mul Z.quot Z.opp Z.abs Z.ltb zf zf zid zid zid Z.pow true zprog_lit 4 1 (vals_of zstate)
+    = (f_pass Z Z.add Z.sub Z.mul Z.quot Z.opp Z.abs Z.ltb zid zid zid Z.pow zid zid zid Z.pow 0 1 zprog_lit 2 (vals_of zstate), None) /\
+    nth 1 (nth 0 (f_pass Z Z.add Z.sub Z.mul Z.quot Z.opp Z.abs Z.ltb zid zid zid Z.pow zid zid zid Z.pow 0 1 zprog_lit 2 (vals_of zstate)) []) 0 = 5.
+  Proof.
+    split; [|split; [reflexivity|split; [|vm_compute; reflexivity]]].
+    - constructor; [|constructor]. split; [cbn; lia|]. split; [cbn; intuition auto|].
+      intros j k H. cbn in H. destruct H as [H|[H|[H|[]]]]; inversion H; subst; cbn; split; lia.
+    - apply (pass_agree Z Z.add Z.sub Z.mul Z.quot Z.opp Z.abs Z.ltb zf zf zid zid zid Z.pow zid zid zid Z.pow 0 1
+               z_neg_mul z_neg_div true 4%nat 3%nat 1 0 1 1%nat zprog_lit (vals_of zstate)).
+      + split; [reflexivity|]. repeat constructor.
+      + reflexivity.
+      + constructor; [|constructor]. split; [cbn; lia|]. split; [cbn; intuition auto|].
+        intros j k H. cbn in H. destruct H as [H|[H|[H|[]]]]; inversion H; subst; cbn; split; lia.
+      + lia.
+      + lia.
+      + vm_compute. intuition auto.
+  Qed.
 End ZInstance.
+
+(* ------------------------------------------------------------------ the regime theorem beyond the finite regime *)
+(* an instance of FSolveSim.w_solve_t_refines in which a pass leaves the "finite" range (integers of magnitude below 1000
+   play the finite numbers): Y = Y * Y * X from Y = 2 under errors='skip' — 4, 16, 256, 65536: pass 4 is not finite, both
+   engines record 'S' with 4 iterations and return False *)
+Section ZSkip.
+  Let zfin : Z -> bool := fun x => Z.abs x <? 1000.
+  Let zf : Z -> bool := fun _ => false.
+  Let zid : Z -> Z := fun x => x.
+  Definition zprog_sq : list (eqn Z) := [(0%nat, EBin OMul (EBin OMul (EVar 0%nat 0) (EVar 0%nat 0)) (EVar 1%nat 0))].
+  Definition zdesc_sq : mdesc := mkDesc [0%nat] [0%nat] 0 0.
+  Definition zfmod_sq : fmod := mkFmod 0 0 [1].
+  Definition zstate_sq : mstate Z := mkState [[2; 2; 2; 2]; [1; 1; 1; 1]] [Unsolved; Unsolved; Unsolved; Unsolved] [-1; -1; -1; -1] [].
+  Definition zopts_skip : opts Z := mkOpts 0 5 1 0 true ESkip true.
+  Notation zevf := (f_pass Z Z.add Z.sub Z.mul Z.quot Z.opp Z.abs Z.ltb zid zid zid Z.pow zid zid zid Z.pow 0 1 zprog_sq).
+  Notation zev := (py_hook Z Z.add Z.sub Z.mul Z.quot Z.opp Z.abs Z.ltb zf zf zid zid zid Z.pow zprog_sq 4).
+
+  Example regime_instance_skip :
+    agree Z (w_solve_t Z Z.sub Z.abs Z.ltb zfin 0 zevf zfmod_sq zdesc_sq zopts_skip 1 zstate_sq)
+            (solve_t_M Z Z.sub Z.abs Z.ltb zfin 0 zev (no_hook Z) (no_hook Z) zdesc_sq zopts_skip 1 zstate_sq) /\
+    snd (w_solve_t Z Z.sub Z.abs Z.ltb zfin 0 zevf zfmod_sq zdesc_sq zopts_skip 1 zstate_sq) = Ret false /\
+    nth 1 (status (fst (w_solve_t Z Z.sub Z.abs Z.ltb zfin 0 zevf zfmod_sq zdesc_sq zopts_skip 1 zstate_sq))) Unsolved = Skipped /\
+    nth 1 (iters (fst (w_solve_t Z Z.sub Z.abs Z.ltb zfin 0 zevf zfmod_sq zdesc_sq zopts_skip 1 zstate_sq))) 0 = 4.
+  Proof.
+    split; [|repeat split; vm_compute; reflexivity].
+    apply (w_solve_t_refines Z Z.sub Z.abs Z.ltb zfin 0 zevf zev (no_hook Z) (no_hook Z) zfmod_sq zdesc_sq zopts_skip 1 zstate_sq
+             1%nat 4%nat 2%nat).
+    - split; [reflexivity|]. repeat constructor.
+    - reflexivity.
+    - lia.
+    - repeat constructor.
+    - repeat constructor.
+    - reflexivity.
+    - reflexivity.
+    - reflexivity.
+    - reflexivity.
+    - reflexivity.
+    - discriminate.
+    - cbn; lia.
+    - cbn; lia.
+    - left; reflexivity.
+    - intros v Hv. apply (f_pass_shape Z Z.add Z.sub Z.mul Z.quot Z.opp Z.abs Z.ltb zid zid zid Z.pow zid zid zid Z.pow 0 1). exact Hv.
+    - intros i k Hi. change (Z.to_nat (max_iter zopts_skip)) with 5%nat in Hi.
+      destruct i as [|[|[|[|[|i]]]]]; try lia; vm_compute; reflexivity.
+    - reflexivity.
+    - reflexivity.
+    - change (Z.to_nat (max_iter zopts_skip)) with 5%nat. unfold regime_from. split; [|split; [|split]].
+      + intros i Hi. destruct i as [|[|[|[|[|[|i]]]]]]; try lia; vm_compute; reflexivity.
+      + intros _. vm_compute. reflexivity.
+      + intros E. discriminate E.
+      + intros E. discriminate E.
+  Qed.
+  (* ... and of FSolveAllG.w_solve_refinesG: solve over the periods 1 and 2, both end 'S' *)
+  Ltac five_cases i := destruct i as [|[|[|[|[|[|i]]]]]]; try lia; vm_compute; reflexivity.
+  Example solve_all_statuses_instance :
+    agree Z (w_solve Z Z.sub Z.abs Z.ltb zfin 0 zevf zfmod_sq zdesc_sq zopts_skip FRaise [1; 2]%nat zstate_sq)
+            (py_solve Z Z.sub Z.abs Z.ltb zfin 0 zev (no_hook Z) (no_hook Z) zdesc_sq zopts_skip [1; 2]%nat zstate_sq) /\
+    snd (w_solve Z Z.sub Z.abs Z.ltb zfin 0 zevf zfmod_sq zdesc_sq zopts_skip FRaise [1; 2]%nat zstate_sq) = Ret [false; false] /\
+    status (fst (w_solve Z Z.sub Z.abs Z.ltb zfin 0 zevf zfmod_sq zdesc_sq zopts_skip FRaise [1; 2]%nat zstate_sq))
+    = [Unsolved; Skipped; Skipped; Unsolved].
+  Proof.
+    split; [|split; vm_compute; reflexivity].
+    apply (w_solve_refinesG Z Z.sub Z.abs Z.ltb zfin 0 zevf zev zfmod_sq zdesc_sq zopts_skip 4%nat 2%nat 1 0 FRaise).
+    - lia.
+    - repeat constructor.
+    - repeat constructor.
+    - reflexivity.
+    - reflexivity.
+    - reflexivity.
+    - cbn; lia.
+    - cbn; lia.
+    - intros idx v Hv. apply (f_pass_shape Z Z.add Z.sub Z.mul Z.quot Z.opp Z.abs Z.ltb zid zid zid Z.pow zid zid zid Z.pow 0 1). exact Hv.
+    - reflexivity.
+    - reflexivity.
+    - reflexivity.
+    - split; [reflexivity|]. repeat constructor.
+    - reflexivity.
+    - cbn [solve_okG]. split.
+      + split; [lia|]. split; [reflexivity|]. right. left. split; [left; reflexivity|]. split.
+        * intros i k Hi. change (Z.to_nat (max_iter zopts_skip)) with 5%nat in Hi. five_cases i.
+        * change (Z.to_nat (max_iter zopts_skip)) with 5%nat. unfold regime_from. split; [|split; [|split]].
+          -- intros i Hi. five_cases i.
+          -- intros _. vm_compute. reflexivity.
+          -- intros E. discriminate E.
+          -- intros E. discriminate E.
+      + match goal with |- context [if ?b then _ else _] => let x := eval vm_compute in b in change b with x end. cbv iota.
+        split; [|exact I].
+        split; [lia|]. split; [reflexivity|]. right. left. split; [left; reflexivity|]. split.
+        * intros i k Hi. change (Z.to_nat (max_iter zopts_skip)) with 5%nat in Hi. five_cases i.
+        * change (Z.to_nat (max_iter zopts_skip)) with 5%nat. unfold regime_from. split; [|split; [|split]].
+          -- intros i Hi. five_cases i.
+          -- intros _. vm_compute. reflexivity.
+          -- intros E. discriminate E.
+          -- intros E. discriminate E.
+  Qed.
+End ZSkip.
